@@ -74,6 +74,39 @@ let handle op args =
         | 'a' -> out := tok_of_bool (bm_any !s i) :: !out
         | _ -> failwith ("pres: bad bitmap op " ^ o)) ops;
       Stdlib.List.rev !out @ Stdlib.List.map hex_of_n !s
+  | "go_bitmap", flavour :: nwords :: base :: ops ->
+      (* Tier T: the same history through the Gallina translation of presence.go / api_export_opaque.go
+         (Gen/PresenceGo.v) over a heap of nwords zero words stored from address base on.  Flavour x
+         calls the Export functions with the address of the word (computed here as the harness does:
+         &arr[i/32]); flavour p goes through presence.toElem. *)
+      let base = z_of_hex base in
+      let zw = Stdlib.List.map (fun _ -> BinNums.Z0) (pres_zeros (int_of_n (n_of_hex nwords))) in
+      let h = ref { PresenceHeap.h_base = base; PresenceHeap.h_words = zw } in
+      let out = ref [] in
+      let bad = ref "" in
+      let get what o = match o with
+        | GoInt.Val a -> Some a
+        | GoInt.Panic -> (if !bad = "" then bad := what ^ ":panic"); None
+        | GoInt.Fuel -> (if !bad = "" then bad := what ^ ":fuel"); None in
+      let x = flavour = "x" in
+      Stdlib.List.iter (fun o ->
+        let i = z_of_hex (pres_tail o) in
+        let part = BinInt.Z.add base (BinInt.Z.mul (z_of_int 4) (BinInt.Z.div i (z_of_int 32))) in
+        let size = BinInt.Z.mul (z_of_int 32) (z_of_hex nwords) in
+        match o.[0] with
+        | 's' -> (match get o (if x then PresenceGo.go_Export_SetPresent !h part i size
+                               else PresenceGo.go_presence_SetPresent !h base i size) with Some h' -> h := h' | None -> ())
+        | 'n' -> (match get o (if x then PresenceGo.go_Export_SetPresentNonAtomic !h part i size
+                               else PresenceGo.go_presence_SetPresentUnatomic !h base i size) with Some h' -> h := h' | None -> ())
+        | 'c' -> (match get o (if x then PresenceGo.go_Export_ClearPresent !h part i
+                               else PresenceGo.go_presence_ClearPresent !h base i) with Some h' -> h := h' | None -> ())
+        | 'p' -> (match get o (if x then PresenceGo.go_Export_Present !h part i
+                               else PresenceGo.go_presence_Present !h base i) with Some b -> out := tok_of_bool b :: !out | None -> ())
+        | 'a' -> (match get o (PresenceGo.go_presence_AnyPresent !h base i) with Some b -> out := tok_of_bool b :: !out | None -> ())
+        | _ -> failwith ("pres: bad bitmap op " ^ o)) ops;
+      let first = match get "LoadPresenceCache" (PresenceGo.go_presence_LoadPresenceCache !h base) with Some w -> [hex_of_z w] | None -> [] in
+      if !bad <> "" then ["model-fault:" ^ !bad]
+      else Stdlib.List.rev !out @ Stdlib.List.map hex_of_z (!h).PresenceHeap.h_words @ first
   | "hist", _ :: cls :: kind :: ops ->
       let st = init_state (pres_class_of cls) (pres_zero_of kind) in
       Stdlib.List.map tok_of_bool (fhas_trace st (Stdlib.List.map pres_op_of ops))
